@@ -59,9 +59,10 @@ Item(t, a, n) ==
 \* ---------------------------------------------------------------- exhaustive
 VARIABLES t, a
 TySet == IF TySel = "all" THEN Types ELSE {TySel}
-Raw == UNION {IF FormSel = "uniform" THEN UniformTreesOf(ty, D) ELSE TreesOf(ty, D) : ty \in TySet}
-NormSet == {Norm(Number(x, 1).t) : x \in Raw}
-Init == t \in NormSet /\ a \in (IF ASel = 0 THEN 1..NA ELSE {ASel})
+\* (operators with a parameter: TLC evaluates parameterless constant definitions at startup, also when unused)
+Raw(d) == UNION {IF FormSel = "uniform" THEN UniformTreesOf(ty, d) ELSE TreesOf(ty, d) : ty \in TySet}
+NormSet(d) == {Norm(Number(x, 1).t) : x \in Raw(d)}
+Init == t \in NormSet(D) /\ a \in (IF ASel = 0 THEN 1..NA ELSE {ASel})
 Next == UNCHANGED <<t, a>>
 Emit == PrintT(<<"CASE", ToJson(Item(t, a, Pow2(D)))>>)
 ASSUME PrintT(<<"CASE", ToJson(Header({Pow2(D), Pow2(DS)}))>>)
@@ -79,9 +80,13 @@ RandT(ty, d) ==
                            ELSE IF c = 9 THEN Bn(Pick(EqOps), RandT("str", d - 1), RandT("str", d - 1))
                            ELSE Un("not", RandT("bool", d - 1))
          [] ty = "str"  -> Bn("..", RandT(Pick({"int", "int", "bool", "str"}), d - 1), RandT(Pick({"int", "int", "bool", "str"}), d - 1))
+\* (the raw random trees are stored in the state first, as an explicit tuple: a lazily evaluated function
+\*  constructor or operator argument containing RandomElement would be re-drawn at every use)
 InitSim == t = <<>> /\ a = 0
-NextSim == t = <<>> /\ a' = 1 /\
-           t' = [j \in 1..M |-> [t |-> Norm(Number(RandT(Pick({"int", "int", "int", "bool", "bool", "str"}), DS), 1).t), a |-> Pick(1..NA)]]
+RECURSIVE RandList(_)
+RandList(m) == IF m = 0 THEN <<>>
+               ELSE <<[t |-> RandT(Pick({"int", "int", "int", "bool", "bool", "str"}), DS), a |-> Pick(1..NA)]>> \o RandList(m - 1)
+NextSim == t = <<>> /\ a' = 1 /\ t' = RandList(M)
 EmitSim == t # <<>> =>
-   JsonSerialize(IOEnv.OUTDIR \o "/b" \o ToString(TLCGet("stats").traces) \o ".json", [j \in 1..M |-> Item(t[j].t, t[j].a, Pow2(DS))])
+   JsonSerialize(IOEnv.OUTDIR \o "/b" \o ToString(TLCGet("stats").traces) \o ".json", [j \in 1..M |-> Item(Norm(Number(t[j].t, 1).t), t[j].a, Pow2(DS))])
 =============================================================================
